@@ -12,6 +12,9 @@
     * `revert_restores` / `snapshot_revert_restores`: for every sequence of EVM-side mutations, reverting to
       the snapshot restores the *whole* StateDB (cached objects, storage, refund counter, logs, access list,
       journal, dirty counts) — provided no Commit happened in between.
+    * `nested_snapshot_revert`: the same when the frame also took any number of further snapshots (inner frames)
+      at any points: reverting to the frame's own snapshot finds the right journal length among the revisions and
+      restores the StateDB, including the list of older revisions.
     * `flush_then_revert_counterexample`: with a Commit inside the reverted span — which is what every
       stateful precompile performs on entry — the frame's EVM-side writes survive the revert (recorded
       finding F-C05-a/c, together with the Cosmos-side effects, which no journal covers).
@@ -309,6 +312,17 @@ theorem mstep_eq_core (db : DB) (h : Sat db) (op : MOp) : mstep db op = mstepCor
   | none => rfl
   | some a => simp only [load_sat db h a]
 
+theorem mstep_keeper' (db : DB) (op : MOp) : (mstep db op).k = db.k ∧ (mstep db op).revisions = db.revisions ∧
+    (mstep db op).nextRev = db.nextRev := by
+  unfold mstep
+  cases op.addr with
+  | none => exact mstep_keeper db op
+  | some a =>
+    have hl : (db.load a).k = db.k ∧ (db.load a).revisions = db.revisions ∧ (db.load a).nextRev = db.nextRev := by
+      unfold DB.load; cases db.objs a <;> simp only <;> (try split) <;> first | exact ⟨rfl, rfl, rfl⟩ | simp
+    obtain ⟨a1, a2, a3⟩ := mstep_keeper (db.load a) op
+    exact ⟨a1.trans hl.1, a2.trans hl.2.1, a3.trans hl.2.2⟩
+
 theorem foldl_mstep_eq_core (ops : List MOp) : ∀ (db : DB), Sat db →
     ops.foldl mstep db = ops.foldl mstepCore db := by
   induction ops with
@@ -329,6 +343,192 @@ theorem revert_restores (ops : List MOp) (db : DB) (h : Sat db) :
 theorem snapshot_revert_restores (db : DB) (hs : Sat db) (hw : RevWF db) (ops : List MOp) :
     revertTo (ops.foldl mstep (snapshot db).1) (snapshot db).2 = some { db with nextRev := db.nextRev + 1 } := by
   rw [foldl_mstep_eq_core ops (snapshot db).1 hs]; exact snapshot_revert_restores_core db hs hw ops
+
+/-! ### nested snapshots: a frame may take further snapshots (inner frames) before it reverts -/
+
+/-- what happens inside a frame: journalled mutations and snapshots of inner frames -/
+inductive SOp
+  | m (op : MOp)
+  | snap
+
+def sstep (db : DB) : SOp → DB
+  | .m op => mstep db op
+  | .snap => (snapshot db).1
+
+theorem undoTop_rev (d : DB) (e : Entry) (R : List (Nat × Nat)) (n : Nat) :
+    undoTop { d with revisions := R, nextRev := n } e = { undoTop d e with revisions := R, nextRev := n } := by
+  cases e <;> simp only [undoTop, undo, DB.get, DB.setObj, Entry.dirtied] <;> (try split) <;> rfl
+
+theorem revertEntries_rev (es : List Entry) : ∀ (d : DB) (R : List (Nat × Nat)) (n k : Nat),
+    revertEntries { d with revisions := R, nextRev := n } es k = { revertEntries d es k with revisions := R, nextRev := n } := by
+  induction es with
+  | nil => intro d R n k; simp [revertEntries]
+  | cons e rest ih =>
+    intro d R n k
+    simp only [revertEntries]
+    split
+    · rfl
+    · rw [undoTop_rev, ih]
+
+theorem revertJournal_rev (d : DB) (R : List (Nat × Nat)) (n k : Nat) :
+    revertJournal { d with revisions := R, nextRev := n } k = { revertJournal d k with revisions := R, nextRev := n } := by
+  unfold revertJournal
+  exact revertEntries_rev d.journal d R n k
+
+theorem sstep_sat (db : DB) (op : SOp) (h : Sat db) : Sat (sstep db op) := by
+  cases op with
+  | m o => simp only [sstep, mstep_eq_core db h o]; exact mstep_sat db o h
+  | snap => exact h
+
+theorem sstep_len (db : DB) (op : SOp) : db.journal.length ≤ (sstep db op).journal.length := by
+  cases op with
+  | m o =>
+    simp only [sstep, mstep]
+    cases o.addr with
+    | none => exact mstep_len db o
+    | some a =>
+      have : (db.load a).journal = db.journal := by
+        unfold DB.load; cases db.objs a <;> simp only <;> (try split) <;> rfl
+      simp only
+      rw [← this]; exact mstep_len (db.load a) o
+  | snap => simp [sstep, snapshot]
+
+/-- **reverting the journal to the length it had at the start of a frame restores everything but the revision
+    bookkeeping, whatever mutations and inner snapshots the frame contained** -/
+theorem revert_restores_nested (ops : List SOp) : ∀ (db : DB), Sat db →
+    revertJournal (ops.foldl sstep db) db.journal.length =
+      { db with revisions := (ops.foldl sstep db).revisions, nextRev := (ops.foldl sstep db).nextRev } := by
+  induction ops with
+  | nil => intro db _; simp only [List.foldl_nil]; exact revert_noop db
+  | cons op rest ih =>
+    intro db hs
+    simp only [List.foldl_cons]
+    have hs1 := sstep_sat db op hs
+    have h1 := ih (sstep db op) hs1
+    have hl := sstep_len db op
+    rw [← revertJournal_trans _ _ _ hl, h1, revertJournal_rev]
+    cases op with
+    | m o =>
+      simp only [sstep, mstep_eq_core db hs o]
+      rw [revert_one db o hs]
+    | snap =>
+      simp only [sstep, snapshot]
+      have := revert_noop db
+      unfold revertJournal at this ⊢
+      simp only
+      rw [revertEntries_rev db.journal db _ _ db.journal.length, this]
+
+theorem foldl_sstep_revisions (ops : List SOp) : ∀ (db : DB) (id len : Nat),
+    (id, len) ∈ db.revisions → (∀ r ∈ db.revisions, r.1 < db.nextRev) →
+    (id, len) ∈ (ops.foldl sstep db).revisions ∧ (∀ r ∈ (ops.foldl sstep db).revisions, r.1 < (ops.foldl sstep db).nextRev) ∧
+    (∀ r ∈ (ops.foldl sstep db).revisions, r ∈ db.revisions ∨ db.nextRev ≤ r.1) := by
+  induction ops with
+  | nil => intro db id len h hw; exact ⟨h, hw, fun r hr => Or.inl hr⟩
+  | cons op rest ih =>
+    intro db id len h hw
+    simp only [List.foldl_cons]
+    cases op with
+    | m o =>
+      obtain ⟨_, hr, hn⟩ := mstep_keeper' db o
+      have := ih (sstep db (.m o)) id len (by simp only [sstep]; rw [hr]; exact h) (by simp only [sstep]; rw [hr, hn]; exact hw)
+      obtain ⟨a, b, c⟩ := this
+      refine ⟨a, b, ?_⟩
+      intro r hr'
+      rcases c r hr' with h1 | h2
+      · left; simp only [sstep] at h1; rw [hr] at h1; exact h1
+      · right; simp only [sstep] at h2; rw [hn] at h2; exact h2
+    | snap =>
+      have hw' : ∀ r ∈ (sstep db .snap).revisions, r.1 < (sstep db .snap).nextRev := by
+        intro r hr
+        simp only [sstep, snapshot, List.mem_cons] at hr ⊢
+        rcases hr with e | e
+        · rw [e]; simp
+        · have := hw r e; omega
+      have := ih (sstep db .snap) id len (by simp only [sstep, snapshot, List.mem_cons]; right; exact h) hw'
+      obtain ⟨a, b, c⟩ := this
+      refine ⟨a, b, ?_⟩
+      intro r hr'
+      rcases c r hr' with h1 | h2
+      · simp only [sstep, snapshot, List.mem_cons] at h1
+        rcases h1 with e | e
+        · right; rw [e]; simp
+        · left; exact e
+      · right; simp only [sstep, snapshot] at h2; omega
+
+theorem foldl_sstep_revs (ops : List SOp) : ∀ (db : DB),
+    ∃ pre, (ops.foldl sstep db).revisions = pre ++ db.revisions ∧ (∀ r ∈ pre, db.nextRev ≤ r.1) ∧
+      db.nextRev ≤ (ops.foldl sstep db).nextRev := by
+  induction ops with
+  | nil => intro db; exact ⟨[], rfl, by simp, Nat.le_refl _⟩
+  | cons op rest ih =>
+    intro db
+    simp only [List.foldl_cons]
+    cases op with
+    | m o =>
+      obtain ⟨_, hr, hn⟩ := mstep_keeper' db o
+      obtain ⟨pre, h1, h2, h3⟩ := ih (sstep db (.m o))
+      refine ⟨pre, ?_, ?_, ?_⟩
+      · rw [h1]; simp only [sstep]; rw [hr]
+      · intro r hr'; have := h2 r hr'; simp only [sstep] at this; rw [hn] at this; exact this
+      · simp only [sstep] at h3; rw [hn] at h3; exact h3
+    | snap =>
+      obtain ⟨pre, h1, h2, h3⟩ := ih (sstep db .snap)
+      refine ⟨pre ++ [(db.nextRev, db.journal.length)], ?_, ?_, ?_⟩
+      · rw [h1]; simp [sstep, snapshot]
+      · intro r hr'
+        rcases List.mem_append.mp hr' with h | h
+        · have := h2 r h; simp only [sstep, snapshot] at this; omega
+        · simp only [List.mem_singleton] at h; rw [h]; exact Nat.le_refl _
+      · have e : (sstep db SOp.snap).nextRev = db.nextRev + 1 := rfl
+        omega
+
+/-- **RevertToSnapshot with inner frames**: a frame takes a snapshot, then performs any journalled mutations and
+    takes any number of further snapshots (inner frames, whether they were reverted or not is immaterial for the
+    journal lengths recorded), and finally reverts to *its own* snapshot: the StateDB is what it was when the
+    frame started — objects, storage, refund, logs, access list, journal, dirty counts and the older revisions;
+    only the revision counter has moved on -/
+theorem nested_snapshot_revert (db : DB) (hs : Sat db) (hw : RevWF db) (ops : List SOp) :
+    revertTo (ops.foldl sstep (snapshot db).1) (snapshot db).2 =
+      some { db with nextRev := (ops.foldl sstep (snapshot db).1).nextRev } := by
+  obtain ⟨pre, hrev, hpre, _⟩ := foldl_sstep_revs ops (snapshot db).1
+  have hnest := revert_restores_nested ops (snapshot db).1 hs
+  unfold revertTo
+  rw [hrev]
+  have hfind : List.find? (fun r => r.1 == (snapshot db).2) (pre ++ (snapshot db).1.revisions) =
+      some (db.nextRev, db.journal.length) := by
+    rw [List.find?_append]
+    have hnone : List.find? (fun r => r.1 == (snapshot db).2) pre = none := by
+      apply List.find?_eq_none.mpr
+      intro r hr
+      have := hpre r hr
+      have e1 : (snapshot db).1.nextRev = db.nextRev + 1 := rfl
+      have e2 : (snapshot db).2 = db.nextRev := rfl
+      simp only [e2, beq_iff_eq]
+      omega
+    rw [hnone]
+    simp [snapshot]
+  rw [hfind]
+  simp only
+  have hl : (snapshot db).1.journal.length = db.journal.length := rfl
+  rw [hl] at hnest
+  rw [hnest]
+  have hfilter : List.filter (fun r => decide (r.1 < (snapshot db).2)) (pre ++ (snapshot db).1.revisions) = db.revisions := by
+    rw [List.filter_append]
+    have h1 : List.filter (fun r => decide (r.1 < (snapshot db).2)) pre = [] := by
+      apply List.filter_eq_nil_iff.mpr
+      intro r hr
+      have := hpre r hr
+      have e1 : (snapshot db).1.nextRev = db.nextRev + 1 := rfl
+      have e2 : (snapshot db).2 = db.nextRev := rfl
+      simp only [e2, decide_eq_true_eq]
+      omega
+    rw [h1]
+    simp only [snapshot, List.nil_append, List.filter_cons, Nat.lt_irrefl, decide_false, Bool.false_eq_true, if_false]
+    apply List.filter_eq_self.2
+    intro r hr
+    exact decide_eq_true (hw r hr)
+  simp only [hfilter]
+  rfl
 
 /-- a transaction that fails as a whole: ApplyTransaction runs the message on a cached copy of the store
     (`tmpCtx`) and writes it back only when the execution did not fail — modelled as: the keeper state after a
